@@ -22,3 +22,5 @@ pub assume_specification<T, E, U, F: FnOnce(T) -> std::result::Result<U, E>>[ st
 pub fn vx_res_cloned<T: Clone, E>(o: std::result::Result<&T, E>) -> (r: std::result::Result<T, E>)
     ensures r == (match o { Ok(t) => Ok::<T, E>(*t), Err(e) => Err::<T, E>(e) })
 { unimplemented!() }
+pub assume_specification<T>[ bool::then_some ](b: bool, t: T) -> (r: Option<T>)
+    ensures r == (if b { Some(t) } else { None::<T> });
